@@ -226,7 +226,7 @@ where
         let (x0, y0) = (d.aux_i(5, 0, w.min(40)).abs(), d.aux_i(6, 0, h.min(40)).abs());
         Rectangle::new(position + Point::new(x0, y0), Size::new(d.aux_u(7, 0, 12), 1 + d.aux_u(4, 0, 12)))
     };
-    let mut skipping = SkipT::<C> { window: win, map: Map::new() };
+    let mut skipping = SkipT::<C> { window: win, map: Map::new(), mode: d.derived(0x5c1b, 4) as u8, drained: vec![] };
     macro_rules! draw_both {
         ($drawable:expr) => {{
             // derived choice: a third of the images are created somewhere else and moved to the offset with
@@ -280,6 +280,9 @@ where
     if let Some(df) = diff_maps("documented layout restricted to the window", &expected_win, &format!("draw() on a target that skips hidden colours with nth (window {:?})", win), &skipping.map) {
         return fail(format!("{}:pixels_skipping_target", what), df);
     }
+    for (got, want) in &skipping.drained {
+        ensure!(got == want, format!("{}:stream_length", what), "a colour stream handed to fill_contiguous yields {} colours in all (counted by a target that skips with nth and then consumes the rest by value, mode {}), the area has {}", got, skipping.mode, want);
+    }
     for c in &native.0.calls {
         if let Call::FillContiguous(a, colors) = c {
             let want = a.size.width as usize * a.size.height as usize;
@@ -300,6 +303,12 @@ where
 pub struct SkipT<C> {
     pub window: Rectangle,
     pub map: Map<C>,
+    /// How the stream is consumed: 0 = `nth` over hidden stretches and `next` for visible colours; 1..=3 =
+    /// the colours in front of the first visible one are dropped with one `nth`, the rest of the stream is
+    /// consumed by value with `for_each` (1), `fold` (2) or a `for` loop after one more `next` (3).
+    pub mode: u8,
+    /// Modes 1..=3: the length of every colour stream that was consumed completely, with the area's pixel count.
+    pub drained: Vec<(usize, usize)>,
 }
 
 impl<C: PixelColor> embedded_graphics::geometry::Dimensions for SkipT<C> {
@@ -326,6 +335,48 @@ impl<C: PixelColor> embedded_graphics::draw_target::DrawTarget for SkipT<C> {
             return Ok(());
         }
         let w = area.size.width as usize;
+        if self.mode != 0 {
+            let first = (vis.top_left.y - area.top_left.y) as usize * w + (vis.top_left.x - area.top_left.x) as usize;
+            if first > 0 && it.nth(first - 1).is_none() {
+                return Ok(());
+            }
+            let (window, ax, ay) = (self.window, area.top_left.x, area.top_left.y);
+            let map = &mut self.map;
+            let mut put = |idx: usize, c: C| {
+                let p = Point::new(ax + (idx % w) as i32, ay + (idx / w) as i32);
+                if window.contains(p) && area.contains(p) {
+                    map.insert((p.x, p.y), c);
+                }
+            };
+            let total = match self.mode {
+                1 => {
+                    let mut idx = first;
+                    it.for_each(|c| {
+                        put(idx, c);
+                        idx += 1;
+                    });
+                    idx
+                }
+                2 => it.fold(first, |idx, c| {
+                    put(idx, c);
+                    idx + 1
+                }),
+                _ => {
+                    let mut idx = first;
+                    if let Some(c) = it.next() {
+                        put(idx, c);
+                        idx += 1;
+                    }
+                    for c in it {
+                        put(idx, c);
+                        idx += 1;
+                    }
+                    idx
+                }
+            };
+            self.drained.push((total, w * area.size.height as usize));
+            return Ok(());
+        }
         // index in the row-major stream of the next colour the iterator will yield
         let mut pos = 0usize;
         for y in vis.rows() {
